@@ -211,10 +211,13 @@ def _wrap_getitem(cls, two_d):
         st = _state
         if st is None:
             return orig(self, key)
+        callee_key = key
         if not isinstance(key, (int, slice, tuple)) and isinstance(key, collections.abc.Iterable):
-            key = list(key)  # a generator can be consumed only once
+            one_shot = not hasattr(key, "__len__")
+            key = list(key)  # the oracle needs to walk it again ...
+            callee_key = (k for k in key) if one_shot else key  # ... the callee still gets a one-shot iterable if it was given one
         try:
-            res = orig(self, key)
+            res = orig(self, callee_key)
         except Exception as e:
             (_check_2d if two_d else _check_1d)(st, name, self, key, None, e)
             raise
